@@ -204,7 +204,8 @@ def _strategy_chain(shapes):
         shapes_["tA"] = (K, D)
         shapes_["tB"] = (K + 1, D)
         P = {nm: draw(gen.arr(sh, -1.2, 1.2)) for nm, sh in sorted(shapes_.items())}
-        return {"family": "chain", "D": D, "R": R, "N": N, "start": start, "mid": mid, "terminal": term, "P": P,
+        iso = _isotropic(draw, P)
+        return {"family": "chain", "isotropic": iso, "D": D, "R": R, "N": N, "start": start, "mid": mid, "terminal": term, "P": P,
                 "d": draw(gen.arr((2, N, D), -1.5, 1.5)), "w_seed": draw(st.integers(0, 10**6)),
                 "dirs": draw(st.integers(0, 10**6)), "jit_first": draw(st.booleans())}
     return s()
@@ -233,12 +234,27 @@ def _strategy_cond(shapes):
         if case["pipe"] in ("lrbf_marginal", "lsem_log_conditional_y") and "SG" not in shapes_:
             shapes_["SG"] = (1, Dy, Dy)
         case["P"] = {nm: draw(gen.arr(sh, -1.0, 1.0)) for nm, sh in sorted(shapes_.items())}
+        case["isotropic"] = _isotropic(draw, case["P"])
         case["d"] = draw(gen.arr((2, max(N, 2) if case["pipe"] == "kalman_scan" else N, Dx + Dy), -1.5, 1.5))
         case["w_seed"] = draw(st.integers(0, 10**6))
         case["dirs"] = draw(st.integers(0, 10**6))
         case["jit_first"] = draw(st.booleans())
         return case
     return s()
+
+
+def _isotropic(draw, P):
+    """Exact structure inside the differentiated programs (a fifth of the cases): every matrix parameter G (the program uses
+    G G' + I/2) becomes a multiple of the identity, so the covariance / precision it builds is exactly isotropic - repeated
+    eigenvalues - while its derivative with respect to G is not zero."""
+    if not draw(st.sampled_from([False] * 4 + [True])):
+        return False
+    for k in sorted(P):
+        A = np.asarray(P[k], float)
+        if k.endswith("G") and A.ndim == 3 and A.shape[1] == A.shape[2] and A.shape[1] >= 2:
+            a = draw(gen.arr((A.shape[0],), 0.5, 1.2))
+            P[k] = a[:, None, None] * np.broadcast_to(np.eye(A.shape[1]), A.shape)
+    return True
 
 
 def _lcg(seed, n):
@@ -346,8 +362,8 @@ def _nontrivial_p(case):
 
 def _labels_p(case):
     if case["family"] == "chain":
-        return [f"start={case['start']}", f"terminal={case['terminal']}", f"nmid={len(case['mid'])}", "jit_first" if case.get("jit_first") else "eager_first"] + [f"mid={m['op']}" + (f"/{m['fkind']}" if "fkind" in m else "") for m in case["mid"]]
-    return [f"pipe={case['pipe']}", f"kind={case['kind']}", "jit_first" if case.get("jit_first") else "eager_first"] + ([f"link={case['link']}"] if case["pipe"].startswith("het") else [])
+        return [f"start={case['start']}", f"terminal={case['terminal']}", f"nmid={len(case['mid'])}", "jit_first" if case.get("jit_first") else "eager_first", "isotropic_matrices" if case.get("isotropic") else "generic_matrices"] + [f"mid={m['op']}" + (f"/{m['fkind']}" if "fkind" in m else "") for m in case["mid"]]
+    return [f"pipe={case['pipe']}", f"kind={case['kind']}", "jit_first" if case.get("jit_first") else "eager_first", "isotropic_matrices" if case.get("isotropic") else "generic_matrices"] + ([f"link={case['link']}"] if case["pipe"].startswith("het") else [])
 
 
 SUBS = [
